@@ -2201,13 +2201,16 @@ class C11(Prop):
                        "{optional caller objects present / absent} x {every modelled setter / configuration attribute}")
     _trusted_static = [
         "object identity: the aliasing clauses ('the caller's objects are not modified', request ID / space-packet view are "
-        "snapshots, factory results are independent) are theorems over the object-graph model Model/Heap.lean (Props/C11Heap.lean: "
-        "frame lemma, write sets of every constructor / factory / decoder, separation for all setter sequences, and the sharing "
-        "that exists stated as it is); that the model allocates, stores and writes where the Python code does is OBSERVED, not "
-        "proved: op heap_alias compares the alias graph the model predicts for every scenario x parameter variant with `is` and "
-        "deep value snapshots on the real objects, for the listed public access paths only (rule: every pair the model separates "
-        "must be two objects, every modified object must be one the model writes; more separation / fewer writes than predicted "
-        "are information). CPython object identity semantics (`is`, copy.copy, copy.deepcopy, dataclass default_factory) are trusted",
+        "snapshots, factory results are independent, what each constructor keeps of the caller's objects) are theorems over the "
+        "object-graph model Model/Heap.lean (Props/C11Heap.lean: 47 general theorems - frame lemmas, write sets of every constructor / "
+        "factory / decoder, to_space_packet writes only the packet's own crc16 cache, separation and value snapshot for all TC / TM "
+        "setter sequences and every depth, the alias relation of the returned PDU to the caller's PduConfig, keeps-caller-object "
+        "theorems, closure preservation - and 3 evaluated instances); that the model allocates, stores and writes where the Python "
+        "code does is OBSERVED, not proved: op heap_alias compares the alias graph the model predicts for every scenario x parameter "
+        "variant with `is` and deep value snapshots on the real objects, for the listed public access paths only (rule: every pair "
+        "the model separates must be two objects, every modified object must be one the model writes; more separation / fewer "
+        "writes than predicted are information). CPython object identity semantics (`is`, copy.copy, copy.deepcopy, dataclass "
+        "default_factory) are trusted",
         "further value-level evidence for the same clause: value snapshots of every caller-supplied PduConfig / params dataclass / "
         "TLV list / bytes before and after constructor and pack(); bystander objects built from the same PduConfig object "
         "re-observed after every setter call on another object",
@@ -2216,9 +2219,9 @@ class C11(Prop):
         "checked on the real objects)",
     ]
     assumptions = ["setter arguments are of the documented types (octet strings, enum members, TLV objects, lists)",
-                   "heap model: caches (_crc16, filestore TLV cache) and objects unreachable when a call returns are not cells; "
+                   "heap model: the value of the _crc16 cache (only None / set), the filestore TLV cache and objects unreachable when a call returns are not modelled; "
                    "length scalars only record that a setter rewrites them (their values are Model/Mutation.lean's subject); "
-                   "views are taken to depth 8 (deepest modelled chain: 4 attribute steps)"]
+                   "theorems hold for every depth n of reach / view; the driver evaluates views to depth 8 (deepest modelled chain: 4)"]
 
     @property
     def trusted_base(self):
